@@ -458,6 +458,8 @@ impl<T: Elem + SatisfyTraits<Tr>, M: MX, Tr: TrX + ?Sized> World<T, M, Tr> {
                     let before = out.fails.len();
                     let need_b = edge_needs_b(&step);
                     if need_b && self.b.is_none() { continue; }
+                    // steps that take their value from the auxiliary vector need it to be non-empty
+                    if matches!(step, Edge::Push(_, s) | Edge::Insert(_, _, s) if s.needs_b()) && self.mb.is_empty() { continue; }
                     self.apply(&step, out);
                     self.mid_history_check(out);
                     for f in out.fails[before..].iter_mut() { f.detail = format!("history step {k} ({step:?}): {}", f.detail); }
